@@ -648,4 +648,98 @@ def numberMethodThis (k : ThisKind) : Bool :=   -- true = accepted
   | .num | .numObj => true
   | _ => false
 
+/-! ### object arguments: how often and when the digit-count / radix argument is converted -/
+
+/-- what one call of a scripted valueOf / toString does: return a number, return an object, throw -/
+inductive Item | num (x : FV) | obj | throw
+deriving DecidableEq, Repr, Inhabited
+
+/-- a scripted object: the k-th call of valueOf (toString) behaves like the k-th item, the last one repeats -/
+structure Script where
+  vs : List Item
+  ss : List Item
+deriving Repr
+
+/-- conversion state: calls made so far and the call log ('v' = 118, 's' = 115) -/
+structure CState where
+  vi : Nat
+  si : Nat
+  log : Str
+deriving Repr
+
+def pick (l : List Item) (i : Nat) : Item := l.getD (min i (l.length - 1)) .throw
+
+inductive Conv | val (x : FV) | thrown | typeError
+deriving Repr
+
+/-- Value.float64() of the object (value_number.go:75): DefaultValue(hint Number) = valueOf, then toString,
+    TypeError when both return objects; exceptions propagate -/
+def convert (sc : Script) (st : CState) : Conv × CState :=
+  let st1 : CState := { st with vi := st.vi + 1, log := st.log ++ [118] }
+  match pick sc.vs st.vi with
+  | .num x => (.val x, st1)
+  | .throw => (.thrown, st1)
+  | .obj =>
+    let st2 : CState := { st1 with si := st1.si + 1, log := st1.log ++ [115] }
+    match pick sc.ss st1.si with
+    | .num x => (.val x, st2)
+    | .throw => (.thrown, st2)
+    | .obj => (.typeError, st2)
+
+/-- the receiver of a `.call`: a Number, a Number object, or something else -/
+inductive Recv | num (x : FV) | numObj (x : FV) | other
+deriving Repr
+
+def Recv.value? : Recv → Option FV | .num x => some x | .numObj x => some x | .other => none
+
+inductive Meth | toFixed | toExponential | toPrecision | toString
+deriving DecidableEq, Repr
+
+inductive Out | res (r : Res) | typeError | thrown
+deriving DecidableEq, Repr
+
+def st0 : CState := ⟨0, 0, []⟩
+
+/-- the four methods called with a scripted object as argument, in the order of the Go code:
+    toFixed (builtin_number.go:53) converts first (once), then RangeError, then the receiver check;
+    toExponential / toPrecision (l.89 / l.127) check the receiver, convert (once, before the NaN / Infinity
+    results since ca691c0), then the rest; toString (l.31) checks the receiver, then converts once. -/
+def callWithObject (L : Lib) (m : Meth) (r : Recv) (sc : Script) : Out × Str :=
+  match m with
+  | .toFixed =>
+    match convert sc st0 with
+    | (.thrown, st) => (.thrown, st.log)
+    | (.typeError, st) => (.typeError, st.log)
+    | (.val v, st) =>
+      let precision := toIntegerFloat v
+      if lt (ofInt 20) precision ∨ lt precision zero then (.res .rangeError, st.log)
+      else match r.value? with
+        | none => (.typeError, st.log)
+        | some x => (.res (toFixed L x (.num v)), st.log)
+  | .toExponential =>
+    match r.value? with
+    | none => (.typeError, [])
+    | some x =>
+      match convert sc st0 with
+      | (.thrown, st) => (.thrown, st.log)
+      | (.typeError, st) => (.typeError, st.log)
+      | (.val v, st) => (.res (toExponential L x (.num v)), st.log)
+  | .toPrecision =>
+    match r.value? with
+    | none => (.typeError, [])
+    | some x =>
+      match convert sc st0 with
+      | (.thrown, st) => (.thrown, st.log)
+      | (.typeError, st) => (.typeError, st.log)
+      | (.val v, st) => (.res (toPrecision L x (.num v)), st.log)
+  | .toString =>
+    match r.value? with
+    | none => (.typeError, [])
+    | some x =>
+      match convert sc st0 with
+      | (.thrown, st) => (.thrown, st.log)
+      | (.typeError, st) => (.typeError, st.log)
+      | (.val v, st) => (.res (numberToString L x (.num v)), st.log)
+
+
 end OttoVerif.C06
